@@ -9,7 +9,9 @@ import gen_c16
 GEN = os.path.join(LEAN, "RulioModel", "Gen", "C16.lean")
 OVERLAY_SRC = os.path.join(HARNESS, "overlay", "c16_crolt_test.go")
 
-# Genuine defects of the unchanged tree, proposed for known_findings.json (same shape); used until they are listed there.
+# Defects found by this slice (same shape as known_findings.json). An entry whose id is listed under `fixed` in
+# known_findings.json is repaired in /repo: its class is no longer tolerated and its witness runs as an ordinary case that
+# must behave (fixed_finding_ids); the others are replayed and printed as KNOWN-FINDING while they still fail.
 PROPOSED = [
     {"property": "C16", "id": "C16-rem-in-flight", "class": "rem-in-flight",
      "what": "cron.Cron.Rem (or a replacing Add) of a recurring job while its Fn is running returns found=false / is undone: Cron.run re-schedules the job when Fn returns and it keeps firing after removal",
@@ -134,8 +136,8 @@ def wall_ambiguous(model):
     return False
 
 
-def wall_spec(case, impl, model):
-    """Direct checks on the real run. Returns (complaints, known_class_hits)."""
+def wall_spec(case, impl, model, tolerated=()):
+    """Direct checks on the real run. Returns (complaints, known_class_hits). `tolerated`: classes of listed, unrepaired findings."""
     bad, known = [], []
     adds = [(o, r) for o, r in zip(case["ops"], impl["ops"]) if o["op"] == "add"]
     clock0 = impl["clock0"]
@@ -175,8 +177,11 @@ def wall_spec(case, impl, model):
         if o["op"] == "rem":
             late = [f for f in impl["fires"] if f["id"] == o["id"] and f["serial"] < nadd and f["t"] > r["t_after"] + 1.0]
             if late:
-                if mr.get("inflight"):
+                if mr.get("inflight") and "rem-in-flight" in tolerated:
                     known.append("rem-in-flight")
+                elif mr.get("inflight"):
+                    bad.append("Rem(%s) at %.1f ms while the job's Fn was running (found=%s) did not remove it: it fired afterwards: %s [C16-rem-in-flight]" % (
+                        o["id"], r["t"], r.get("found"), [(f["id"], f["serial"], round(f["t"])) for f in late]))
                 elif r.get("found"):
                     bad.append("job %s removed at %.1f ms while pending fired afterwards: %s" % (o["id"], r["t"], late))
                 else:
@@ -184,10 +189,26 @@ def wall_spec(case, impl, model):
     # liveness at the end: a one-shot still pending long after its due time although the loop is neither suspended nor paused
     for jid, nxt in impl.get("tl") or []:
         if nxt < case["horizon"] - 250 and not model.get("suspended"):
-            if model.get("class_disarm"):
+            if model.get("class_disarm") and "rem-head-disarms" in tolerated:
                 known.append("rem-head-disarms")
             else:
-                bad.append("job %s due at %.1f ms is still pending at %d ms (cron neither suspended nor paused)" % (jid, nxt, case["horizon"]))
+                bad.append("job %s due at %.1f ms is still pending at %d ms (cron neither suspended nor paused)%s" % (
+                    jid, nxt, case["horizon"], ": the timer was not re-armed after the head of the timeline was removed [C16-rem-head-disarms]" if model.get("class_disarm") else ""))
+    # what the specification (repaired model) says about Rem results and replacements
+    sops = model.get("spec_ops") or []
+    for n, (o, r, sr) in enumerate(zip(case["ops"], impl["ops"], sops)):
+        if o["op"] == "rem" and "found" in sr and bool(r.get("found")) != bool(sr["found"]):
+            if sr.get("inflight") and "rem-in-flight" in tolerated:
+                known.append("rem-in-flight")
+            else:
+                bad.append("op %d: Rem(%s) at %.1f ms returned found=%s, the specification says %s%s" % (
+                    n, o["id"], r["t"], r.get("found"), sr["found"], " (the job's Fn was running) [C16-rem-in-flight]" if sr.get("inflight") else ""))
+    if model.get("class_inflight") and "rem-in-flight" not in tolerated:
+        fi = sorted((f["id"], f["serial"]) for f in impl["fires"])
+        fs = sorted((f["id"], f["serial"]) for f in model.get("spec_fires") or [])
+        if fi != fs and not any("C16-rem-in-flight" in b for b in bad):
+            bad.append("a Rem / replacing Add issued while the job's Fn was running was undone when Fn returned: fires %s, the specification has %s [C16-rem-in-flight]" % (
+                [(f["id"], f["serial"], round(f["t"])) for f in impl["fires"]], [(f["id"], f["serial"], f["t"]) for f in model.get("spec_fires") or []]))
     return bad, known
 
 
@@ -398,8 +419,7 @@ def main():
         "cronexpr.Expression.Next(now) > now; sort.Search on a sorted timeline returns the first index satisfying the predicate",
     ]
     ck.cov["checker_cmd"] = "harness/cmd/extract_c16 /repo lean/RulioModel/Gen/C16.lean && lake build Props.C16 && lake env lean .audit/Audit_C16.lean (#print axioms)"
-    ck.assumptions += ["a Bolt transaction is atomic and durable (reopen = identity on the committed state)",
-                       "crolt callers pass fresh jobs (no tid/evict in the request body) — violated by AddHandler, see finding C16-crolt-tid-injection"]
+    ck.assumptions += ["a Bolt transaction is atomic and durable (reopen = identity on the committed state)"]
 
     # (1) regenerate Gen/C16.lean from the Go source
     tie_broken = None
@@ -437,11 +457,18 @@ def main():
         replay(ck, drv, mdl, crolt, sys.argv[sys.argv.index("--replay") + 1])
 
     rng = ck.rng
-    kf = known_findings("C16") or PROPOSED
-    known_classes = set(f.get("class") for f in kf)
+    listed = {f["id"]: f for f in known_findings("C16")}
+    all_kf = [listed.get(f["id"], f) for f in PROPOSED] + [f for i, f in listed.items() if i not in [p["id"] for p in PROPOSED]]
+    repaired = fixed_finding_ids("C16")
+    repaired_kf = [f for f in all_kf if f["id"] in repaired and f.get("witness")]
+    kf = [f for f in all_kf if f["id"] not in repaired and f.get("witness")]
+    known_classes = set(f.get("class") for f in kf)      # tolerated: listed and not repaired
+    ck.cov["findings_tolerated"] = sorted(f["id"] for f in kf)
+    ck.cov["findings_repaired_not_tolerated"] = sorted(f["id"] for f in repaired_kf)
     dist = {"tl_cases": 0, "tl_ops": 0, "tl_started": 0, "tl_replaces": 0, "tl_limit_hits": 0, "tl_fired": 0, "tl_rem_found": 0,
             "wall_cases": 0, "wall_ambiguous_skipped": 0, "wall_fires": 0, "wall_recurring_cases": 0, "wall_in_fragment": 0,
-            "wall_class_disarm": 0, "wall_class_inflight": 0, "wall_reruns": 0,
+            "wall_class_disarm": 0, "wall_class_inflight": 0, "wall_reruns": 0, "wall_remhead_shapes": 0, "wall_inflight_shapes": 0,
+            "inflight_blocking_cases": 0, "crolt_jitter_runs": 0, "crolt_jitter_offsets": 0,
             "crolt_cases": 0, "crolt_ops": 0, "crolt_reopens": 0, "crolt_work_fired": 0, "crolt_evictions": 0, "crolt_exists": 0,
             "crolt_rejected_expr": 0, "crolt_injection_cases": 0, "crolt_wall_hits": 0}
     known_hits = {}
@@ -505,7 +532,8 @@ def main():
 
     # (4b) crolt histories with reopen points
     n_cr = 400 if not ck.thorough else 5000
-    cr_cases = [gen_c16.crolt_case(rng, thorough=ck.thorough, inject=(k % 12 == 11)) for k in range(n_cr)]
+    cr_cases = [dict(f["witness"]) for f in repaired_kf if f["witness"].get("kind") == "c16.crolt"]
+    cr_cases += [gen_c16.crolt_case(rng, thorough=ck.thorough, inject=(k % 5 == 4)) for k in range(n_cr - len(cr_cases))]
     cimpl = run_cases(crolt, cr_cases)
     mcases, aidmaps = [], []
     for c, i in zip(cr_cases, cimpl):
@@ -553,7 +581,9 @@ def main():
                 known_hits.setdefault("crolt-tid-injection", c)
                 bad = []
             if bad:
-                ck.violation("crolt violates the property after op %d (%s): %s" % (n, canon(op), "; ".join(bad[:3])), {"case": c, "op": n, "impl_outs": i["outs"][:n + 1], "complaints": bad}, tag="crolt-spec")
+                ck.violation("crolt violates the property after op %d (%s): %s%s" % (n, canon(op), "; ".join(bad[:3]),
+                             " (the request body named another job's tid: C16-crolt-tid-injection)" if op.get("tid_of") else ""),
+                             {"case": c, "op": n, "impl_outs": i["outs"][:n + 1], "complaints": bad}, tag="crolt-spec")
                 reported = True
                 break
             if not same or mfired != ifired:
@@ -562,7 +592,7 @@ def main():
                     {"case": c, "op": n, "impl_outs": i["outs"][:n + 1], "model_ops": mc["ops"], "model": mlast}, tag="crolt-corr")
                 reported = True
                 break
-            if not proof_broken and not inject and not mlast.get("binv", True):
+            if not proof_broken and (not inject or "crolt-tid-injection" not in known_classes) and not mlast.get("binv", True):
                 ck.violation("INTERNAL: the model leaves BInv on a legal history (theorem and driver out of sync)", {"case": c, "model": mlast}, tag="internal")
                 reported = True
                 break
@@ -578,7 +608,11 @@ def main():
 
     # (4c) wall-clock scenarios (cron.Cron) + crolt wall-clock run + witnesses of the known findings, run side by side
     n_wall = 36 if not ck.thorough else 400
-    wall_cases = gen_c16.wall_directed() + [gen_c16.wall_case(rng, recurring=(k % 4 == 3), thorough=ck.thorough) for k in range(n_wall - 4)]
+    wall_cases = [dict(f["witness"]) for f in repaired_kf if f["witness"].get("kind") == "c16.wall"] + gen_c16.wall_directed()
+    wall_cases += [gen_c16.wall_case(rng, recurring=(k % 4 == 3), thorough=ck.thorough) for k in range(n_wall - len(wall_cases))]
+    infl_cases = gen_c16.inflight_cases() + [dict(f["witness"]) for f in repaired_kf if f["witness"].get("kind") == "c16.reminflight"]
+    jit_cases = [gen_c16.crolt_wall_jitter(rng)] + [dict(f["witness"]) for f in repaired_kf if f["witness"].get("kind") == "c16.crolt.wall"]
+    other_repaired = [f for f in repaired_kf if f["witness"].get("kind") in ("c16.crolt.race", "c16.crolt.parse")]
     crolt_wall = {"kind": "c16.crolt.wall", "partitions": 2, "ttl_ms": 300, "jitter_ms": 0, "horizon": 3200, "poll_ms": 40,
                   "jobs": [{"acc": "a", "id": "1", "expr": "%dms" % rng.choice([150, 250, 350])}, {"acc": "a", "id": "2", "expr": "500ms"},
                            {"acc": "b", "id": "1", "expr": "%dms" % rng.choice([200, 300])}, {"acc": "r", "id": "1", "expr": "* * * * * * *"}],
@@ -588,9 +622,15 @@ def main():
         f_wall = ex.submit(run_wall, drv, mdl, wall_cases, 14 if not ck.thorough else 16)
         f_cw = ex.submit(run_cases, crolt, [crolt_wall], 1)
         f_kf = ex.submit(replay_known, drv, mdl, crolt, kf)
+        f_infl = ex.submit(par_cases, drv, infl_cases, len(infl_cases))
+        f_jit = ex.submit(par_cases, crolt, jit_cases, len(jit_cases))
+        f_rep = ex.submit(replay_known, drv, mdl, crolt, other_repaired)
         wimpl, wmodel = f_wall.result()
         cw = f_cw.result()[0]
         kf_results = f_kf.result()
+        infl_res = f_infl.result()
+        jit_res = f_jit.result()
+        rep_results = f_rep.result()
 
     for c, i, m in zip(wall_cases, wimpl, wmodel):
         ck.count(c, nontrivial=True)
@@ -608,7 +648,7 @@ def main():
                 dist["wall_ambiguous_skipped"] += 1
                 verdict = None
                 break
-            bad, known = wall_spec(c, i, m)
+            bad, known = wall_spec(c, i, m, known_classes)
             diff = wall_same(c, i, m)
             if not bad and not diff:
                 verdict = ("ok", "", known)
@@ -625,6 +665,9 @@ def main():
         dist["wall_fires"] += len(i.get("fires") or [])
         if m.get("class_disarm"): dist["wall_class_disarm"] += 1
         if m.get("class_inflight"): dist["wall_class_inflight"] += 1
+        if any(r.get("inflight") for r in m.get("ops") or []): dist["wall_inflight_shapes"] += 1
+        heads = [o for n, o in enumerate(c["ops"]) if o["op"] == "rem" and any(e[1] == "tick" for e in m.get("events") or [])]
+        if heads: dist["wall_remhead_shapes"] += 1
         if not m.get("class_disarm") and not m.get("class_inflight"): dist["wall_in_fragment"] += 1
         for k in known:
             known_hits.setdefault(k, c)
@@ -632,7 +675,8 @@ def main():
             # inside the fragment the faithful model equals the repaired one (= what the property demands): nothing more to check;
             # outside it the difference must be one of the listed classes
             if (m.get("class_disarm") and "rem-head-disarms" not in known_classes) or (m.get("class_inflight") and "rem-in-flight" not in known_classes):
-                ck.violation("cron.Cron behaves like the model but not like the specification (repaired model): spec fires %s, impl fires %s" % (
+                ck.violation("cron.Cron behaves like the model extracted from it but not like the specification%s: spec fires %s, impl fires %s" % (
+                    " [C16-rem-head-disarms]" if m.get("class_disarm") else " [C16-rem-in-flight]",
                     [(f["id"], f["serial"], f["t"]) for f in m["spec_fires"]], [(f["id"], f["serial"], round(f["t"])) for f in i["fires"]]),
                     {"case": c, "impl": i, "model": m}, tag="spec")
             continue
@@ -656,13 +700,61 @@ def main():
             if all("polls" in a and crolt_wall_spec(crolt_wall, a) for a in again):
                 ck.violation("crolt violates the property in a wall-clock run (reproduced on re-runs): " + "; ".join(bad[:3]), {"case": crolt_wall, "impl": cw, "complaints": bad}, tag="crolt-wall")
 
+    # Rem / replacing Add inside a blocking Fn (deterministic): direct checks against the specification
+    for c, r in zip(infl_cases, infl_res):
+        ck.count(c, nontrivial=True)
+        dist["inflight_blocking_cases"] += 1
+        for attempt in range(3):
+            bad = inflight_spec(c, r)
+            if not bad or r.get("err") == "recurring job never fired":
+                break
+            r = run_cases(drv, [c], 1)[0]
+        if bad and "rem-in-flight" in known_classes:
+            known_hits.setdefault("rem-in-flight", c)
+        elif bad:
+            ck.violation("cron.Cron violates the property when the operation lands while the job's Fn runs (reproduced on re-runs): %s [C16-rem-in-flight]" % "; ".join(bad[:3]),
+                         {"case": c, "impl": r, "complaints": bad}, tag="inflight")
+
+    # crolt wall-clock runs with jitter: direct checks + the jitter range of the model (Gen.jitterSub)
+    for c, r in zip(jit_cases, jit_res):
+        ck.count(c, nontrivial=True)
+        dist["crolt_jitter_runs"] += 1
+        sub = run_cases(mdl, [{"kind": "c16.crolt.jitter", "max": c["jitter_ms"] * 1_000_000}])[0].get("sub")
+        for attempt in range(3):
+            if "polls" not in r:
+                bad, corr, nobs = ["crolt wall-clock run failed: %s" % str(r)[:200]], [], 0
+            else:
+                bad = crolt_wall_spec(c, r)
+                jbad, corr, nobs = crolt_jitter_spec(c, r, sub)
+                bad += jbad
+            if not bad and not corr:
+                break
+            r = run_cases(crolt, [c], 1)[0]
+        dist["crolt_jitter_offsets"] += nobs
+        if bad and "crolt-jitter" in known_classes:
+            known_hits.setdefault("crolt-jitter", c)
+        elif bad:
+            ck.violation("crolt violates the property in a wall-clock run with MaxJitter %d ms (reproduced on re-runs): %s [C16-crolt-jitter-double-fire]" % (c["jitter_ms"], "; ".join(bad[:3])),
+                         {"case": c, "impl": {k: v for k, v in r.items() if k != "polls"}, "complaints": bad}, tag="crolt-jitter")
+        elif corr:
+            ck.violation("correspondence broken: crolt Cron.Jitter and the extracted jitter range disagree (reproduced on re-runs): %s" % "; ".join(corr[:3]),
+                         {"case": c, "complaints": corr, "model_jitter_sub_ns": sub}, tag="crolt-jitter-corr")
+
+    # witnesses of repaired findings that are not cases of the pipelines above: they must not fail any more
+    for f, (still, detail) in zip(other_repaired, rep_results):
+        ck.count(f["witness"], nontrivial=True)
+        if still:
+            ck.violation("the repaired defect %s is back: %s [%s]" % (f["id"], f["what"], detail), {"case": f["witness"], "finding": f["id"], "detail": detail}, tag="regressed")
+
     ck.cov["rule"] = ("(a) c16.tl: Add/Rem/replace/suspend/resume/pause histories (3-14 ops, 2-4 ids, limits 1-50) with absolute due times long past or far future and far-future cron expressions, "
                       "on a started or not-started cron.Cron, Timeline+fired compared with the Lean model after every op, non-trivial = contains a Rem; "
                       "(b) c16.wall: timed scenarios on a 100 ms grid (one-shot +100..400 ms, every-second recurring, Fn durations 0-325 ms, Rem/replace/suspend/resume/pause), fire times compared with the closed-loop model within -3/+45 ms and against the repaired model; "
                       "(c) c16.crolt: Add/Delete/work/reopen histories (4-12 ops, 1-4 partitions, TTL 0/1 ms/1 h) on real Bolt files, both buckets compared with the Lean model after every op; "
-                      "(d) one crolt wall-clock run with the real work() polled every 40 ms; distinct by canonical JSON")
+                      "(d) one crolt wall-clock run with the real work() polled every 40 ms; (e) c16.reminflight: Rem / Rem twice / replacing Add (one-shot, recurring) landing inside a blocking Fn of an every-second job; "
+                      "(f) crolt wall-clock runs with MaxJitter 400/900 ms polled every 20 ms (occurrences tracked: none served twice, no run before its occurrence, new key within the extracted jitter range); "
+                      "directed every run: remhead / in-flight rem+replace wall scenarios, tid_of injections in 1 of 5 crolt histories, the witnesses of repaired findings; distinct by canonical JSON")
     ck.cov["distribution"] = dist
-    ck.cov["traces_validated_against_impl"] = dist["tl_cases"] + dist["crolt_cases"] + dist["wall_cases"] - dist["wall_ambiguous_skipped"]
+    ck.cov["traces_validated_against_impl"] = dist["tl_cases"] + dist["crolt_cases"] + dist["wall_cases"] - dist["wall_ambiguous_skipped"] + dist["inflight_blocking_cases"] + dist["crolt_jitter_runs"]
 
     # (5) known findings: print those whose witness still fails
     for f, (still, detail) in zip(kf, kf_results):
@@ -671,8 +763,8 @@ def main():
         else:
             ck.note("known finding %s did not reproduce in this run (%s)" % (f["id"], detail))
             if f.get("class") in ("rem-in-flight", "rem-head-disarms", "crolt-tid-injection"):
-                # the model reproduces these defects: if the code no longer does, model and finding list are out of date
-                ck.violation("listed finding %s no longer reproduces on the implementation: the Lean model (which has the defect) and known_findings.json must be brought up to date" % f["id"],
+                # the model is extracted from the code: if the defect is gone from both, the finding list is out of date
+                ck.violation("listed finding %s no longer reproduces on the implementation: known_findings.json must be brought up to date (move it to `fixed`)" % f["id"],
                              {"finding": f, "detail": detail}, tag="stale-finding", no_input=True)
     for t, n in per_tag.items():
         if n > 3:
@@ -781,6 +873,83 @@ def crolt_wall_spec(case, cw):
             if n == 0 and ad["at"] + 1_500_000_000 < end:
                 bad.append("recurring job %s never ran" % a)
     return bad
+
+
+def inflight_spec(c, r):
+    """What the property demands of c16.reminflight (an operation landing inside the blocking Fn of the every-second job r)."""
+    bad = []
+    if r.get("err"):
+        return ["scenario failed: %s" % r["err"]]
+    v = c.get("variant") or "rem"
+    if r.get("fires_after_release", 0) != 0:
+        bad.append("the %s job fired %d more times after its Fn returned" % ("removed" if v.startswith("rem") else "replaced", r["fires_after_release"]))
+    if v in ("rem", "remrem"):
+        if r.get("found") is not True:
+            bad.append("Rem while Fn runs returned found=%s" % r.get("found"))
+        if v == "remrem" and r.get("found2") is not False:
+            bad.append("a second Rem right after the first returned found=%s" % r.get("found2"))
+        if r.get("pending_end") != 0:
+            bad.append("%s entries pending at the end (timeline %s)" % (r.get("pending_end"), r.get("tl_ids")))
+    else:
+        if r.get("adderr"):
+            bad.append("the replacing Add failed: %s" % r["adderr"])
+        if r.get("pending_after_rem") != 1:
+            bad.append("%s entries pending right after the replacing Add" % r.get("pending_after_rem"))
+        if v == "add1" and (r.get("pending_end") != 1 or r.get("fires_new") != 0):
+            bad.append("replacement (one-shot in 1 h): pending at the end %s, fires %s" % (r.get("pending_end"), r.get("fires_new")))
+        if v == "addr" and (r.get("fires_new", 0) < 1 or r.get("pending_end") not in (0, 1) or len(set(r.get("tl_ids") or [])) != len(r.get("tl_ids") or [])):
+            bad.append("replacement (every second): fires %s, pending at the end %s (timeline %s)" % (r.get("fires_new"), r.get("pending_end"), r.get("tl_ids")))
+    return bad
+
+
+def crolt_jitter_spec(case, r, sub):
+    """Occurrence bookkeeping for the recurring jobs of a jittered crolt wall-clock run.
+    Returns (property complaints, correspondence complaints, number of jitter offsets observed).
+    The occurrence a key stands for is known when the clock readings around the transaction that computed it lie in one second."""
+    S = 1_000_000_000
+    mx = case["jitter_ms"] * 1_000_000
+    bad, corr, nobs = [], [], 0
+    occ_of = {}      # (aid, key timestamp) -> occurrence (ns) or None
+    served = {}
+    for a in r["adds"]:
+        if a["once"] or a["err"] is not None:
+            continue
+        o = (a["t_before"] // S + 1) * S if a.get("t_before") and a["t_before"] // S == a["t"] // S else None
+        occ_of[(a["aid"], a["at"])] = o
+        if o is not None:
+            nobs += 1
+            off = a["at"] - o
+            if sub is not None and not (-sub <= off < mx - sub):
+                corr.append("key of %s set by Add is %.1f ms from the next occurrence, the model's range is [%.1f, %.1f) ms" % (a["aid"], off / 1e6, -sub / 1e6, (mx - sub) / 1e6))
+            if off < 0:
+                bad.append("job %s was scheduled %.1f ms before its occurrence" % (a["aid"], -off / 1e6))
+    once = set(a["aid"] for a in r["adds"] if a["once"])
+    for p in r["polls"]:
+        pre = {j["k"]: j for j in p["pre"]}
+        post = {j["k"]: j for j in p["post"]}
+        same_sec = p["before"] // S == p["after"] // S
+        for h in p["hits"]:
+            a = h["aid"]
+            if a in once or a not in pre:
+                continue
+            o = occ_of.get((a, pre[a]["tid_ts"]))
+            if o is not None:
+                if h["t"] < o:
+                    bad.append("job %s ran %.1f ms before the occurrence it ran for" % (a, (o - h["t"]) / 1e6))
+                if o in served.setdefault(a, set()):
+                    bad.append("job %s ran twice for the occurrence at second %d" % (a, o // S))
+                served[a].add(o)
+            if a in post:
+                no = (p["before"] // S + 1) * S if same_sec else None
+                occ_of[(a, post[a]["tid_ts"])] = no
+                if no is not None:
+                    nobs += 1
+                    off = post[a]["tid_ts"] - no
+                    if sub is not None and not (-sub <= off < mx - sub):
+                        corr.append("new key of %s is %.1f ms from the next occurrence, the model's range is [%.1f, %.1f) ms" % (a, off / 1e6, -sub / 1e6, (mx - sub) / 1e6))
+                    if off < 0:
+                        bad.append("job %s was scheduled %.1f ms before its next occurrence" % (a, -off / 1e6))
+    return bad, corr, nobs
 
 
 def replay_known(drv, mdl, crolt, kf):
